@@ -1,16 +1,19 @@
 /- Hand-written executable model (tie B): Gen — bookkeeping of the field generators
    (RandMeth / IncomprRandMeth / Fourier in field/generator.py) and of SRF.__call__ (field/srf.py):
    private model copy, seed, mode number, which settings the amplitude / wave-vector arrays were
-   derived under, position in the RNG stream.  Values are abstract identifiers.  Core Lean only. -/
+   derived under, position in the RNG stream (number of nugget-noise variates drawn since the stream was
+   last restarted), the position set stored by `Field.set_pos`.  Values are abstract identifiers.
+   Core Lean only. -/
 import GSV.Proto
 import GSV.Gen.Summator
 open Lean GSV GSV.Proto
 namespace GSV.Model.Gen
 
-/-- a model value as `CovModel.__eq__` sees it, plus whether its nugget is positive -/
+/-- a model value as `CovModel.__eq__` sees it: an identifier for everything but the nugget, and the
+    nugget level (`0` = no nugget, `k > 0` = the k-th positive nugget value) -/
 structure MVal where
   id : Nat
-  nug : Bool
+  nug : Nat
 deriving DecidableEq, Repr, Inhabited
 
 /-- seed argument of `update` / `reset_seed` / `SRF.__call__`: `keep` = `np.nan` -/
@@ -36,10 +39,11 @@ structure State where
   derived : Derived
   epoch : Nat          -- number of reseeds so far
   draws : Nat          -- normal variates drawn for nugget noise since the last reseed
+  pos : Option Nat := none   -- identifier of the position set (incl. mesh type) stored on the field object
 deriving DecidableEq, Repr, Inhabited
 
 inductive Op where
-  | srfCall (seed : SeedArg) (npts : Nat)     -- SRF.__call__(pos, seed)
+  | srfCall (seed : SeedArg) (pos : Nat) (npts : Nat)   -- SRF.__call__(pos, seed, mesh_type); `pos` identifies (positions, mesh type)
   | modelChange (m : MVal)                    -- in-place change of the field's model
   | genSetSeed (s : Option Nat)               -- generator.seed = s
   | genSetModeNo (n : Nat)                    -- generator.mode_no = n
@@ -47,11 +51,13 @@ inductive Op where
   | genCall (npts : Nat) (addNugget : Bool)   -- generator(pos, add_nugget)
 deriving DecidableEq, Repr, Inhabited
 
-/-- output of a generating call: the token of the summed modes and, if noise was drawn,
-    (seed, epoch-if-random, first draw index, count) of the nugget noise -/
+/-- output of a generating call: the token of the summed modes, if noise was drawn the
+    (seed, epoch-if-random, first draw index, count) of the nugget noise, and the position set the
+    values belong to (`none` for a direct generator call, whose positions are an explicit argument) -/
 structure Out where
   field : Derived
   noise : Option (Option Nat × Nat × Nat × Nat)
+  pos : Option Nat := none
 deriving DecidableEq, Repr, Inhabited
 
 def derive (m : MVal) (seed : Option Nat) (modeNo epoch : Nat) : Derived :=
@@ -74,26 +80,51 @@ def update (s : State) (m : MVal) (a : SeedArg) : State :=
     | .keep => s
     | .set x => setSeed s x
 
-def genCall (s : State) (npts : Nat) (addNugget : Bool) : State × Out :=
-  if addNugget ∧ s.genModel.nug then
+/-- `Field.set_pos`: the given positions (and mesh type) are stored, whatever was stored before -/
+def setPos (s : State) (p : Nat) : State := { s with pos := some p }
+
+def genCall (s : State) (npts : Nat) (addNugget : Bool) (pos : Option Nat := none) : State × Out :=
+  if addNugget ∧ s.genModel.nug ≠ 0 then
     ({ s with draws := s.draws + npts },
-     { field := s.derived, noise := some (s.seed, (match s.seed with | some _ => 0 | none => s.epoch), s.draws, npts) })
-  else (s, { field := s.derived, noise := none })
+     { field := s.derived, noise := some (s.seed, (match s.seed with | some _ => 0 | none => s.epoch), s.draws, npts), pos })
+  else (s, { field := s.derived, noise := none, pos })
+
+/-- `SRF.__call__` up to the point where the generator runs: `generator.update(model, seed)`, then `pre_pos` -/
+def preCall (s : State) (a : SeedArg) (p : Nat) : State := setPos (update s s.srfModel a) p
 
 def step (s : State) : Op → State × Option Out
-  | .srfCall a n =>
-    let s := update s s.srfModel a
-    let (s, o) := genCall s n true
+  | .srfCall a p n =>
+    let (s, o) := genCall (preCall s a p) n true (some p)
     (s, some o)
   | .modelChange m => ({ s with srfModel := m }, none)
   | .genSetSeed x => (setSeed s x, none)
   | .genSetModeNo n => (if n ≠ s.modeNo then resetSeed { s with modeNo := n } .keep else s, none)
   | .genResetSeed a => (resetSeed s a, none)
-  | .genCall n b => let (s, o) := genCall s n b; (s, some o)
+  | .genCall n b => let (s, o) := genCall s n b none; (s, some o)
+
+/-- the state the generator runs in when `op` is a generating call -/
+def preGen (s : State) : Op → State
+  | .srfCall a p _ => preCall s a p
+  | _ => s
+
+/-- what is needed to reproduce an output from a freshly constructed object: its model, seed and mode
+    number, and how many noise variates have been consumed since the stream was (re)started -/
+structure Recipe where
+  model : MVal
+  seed : Option Nat
+  modeNo : Nat
+  burn : Nat
+deriving DecidableEq, Repr, Inhabited
+
+def recipe (s : State) : Recipe := { model := s.genModel, seed := s.seed, modeNo := s.modeNo, burn := s.draws }
 
 /-- a freshly constructed `SRF(model, seed=…, mode_no=…)` -/
 def init (m : MVal) (seed : Option Nat) (modeNo : Nat) : State :=
   { srfModel := m, genModel := m, seed, modeNo, derived := derive m seed modeNo 1, epoch := 1, draws := 0 }
+
+/-- a freshly constructed object on which `burn` noise variates have been drawn (one direct call with
+    `burn` points) -/
+def replayState (r : Recipe) : State := (genCall (init r.model r.seed r.modeNo) r.burn true none).1
 
 def run (s : State) : List Op → State × List (Option Out)
   | [] => (s, [])
@@ -139,6 +170,13 @@ def optNat (j : Json) (k : String) : Option Nat :=
   | .ok (Json.num n) => some n.mantissa.toNat
   | _ => none
 
+/-- nugget level: `true`/`false` or a number -/
+def nugLevel (j : Json) : Nat :=
+  match j.getObjVal? "nug" with
+  | .ok (Json.bool b) => if b then 1 else 0
+  | .ok (Json.num n) => n.mantissa.toNat
+  | _ => 0
+
 def parseSeedArg (j : Json) : SeedArg :=
   match j.getObjVal? "seed" with
   | .ok (Json.str "keep") => .keep
@@ -148,8 +186,8 @@ def parseSeedArg (j : Json) : SeedArg :=
 def parseOp (j : Json) : Except String Op := do
   let k ← getStr j "k"
   match k with
-  | "srf_call" => return .srfCall (parseSeedArg j) (← getNat j "n")
-  | "model" => return .modelChange { id := ← getNat j "id", nug := ← getBool j "nug" }
+  | "srf_call" => return .srfCall (parseSeedArg j) ((optNat j "pos").getD 0) (← getNat j "n")
+  | "model" => return .modelChange { id := ← getNat j "id", nug := nugLevel j }
   | "gen_seed" => return .genSetSeed (optNat j "s")
   | "gen_mode_no" => return .genSetModeNo (← getNat j "n")
   | "gen_reset" => return .genResetSeed (parseSeedArg j)
@@ -165,12 +203,16 @@ def outJson (o : Out) : Json :=
   Json.mkObj [("field", derivedJson o.field),
     ("noise", match o.noise with
       | none => Json.null
-      | some (s, e, a, n) => Json.arr #[optJ s, natJ e, natJ a, natJ n])]
+      | some (s, e, a, n) => Json.arr #[optJ s, natJ e, natJ a, natJ n]),
+    ("pos", optJ o.pos)]
+
+def recipeJson (r : Recipe) : Json :=
+  Json.mkObj [("model", natJ r.model.id), ("nug", natJ r.model.nug), ("seed", optJ r.seed), ("mode_no", natJ r.modeNo), ("burn", natJ r.burn)]
 
 def ops (op : String) (j : Json) : Option (Except String Json) :=
   match op with
   | "gen_history" => some (do
-      let m : MVal := { id := ← getNat j "model", nug := ← getBool j "nug" }
+      let m : MVal := { id := ← getNat j "model", nug := nugLevel j }
       let seed := optNat j "seed0"
       let mn ← getNat j "mode_no"
       let arr ← (← j.getObjVal? "ops").getArr?
@@ -183,7 +225,8 @@ def ops (op : String) (j : Json) : Option (Except String Json) :=
         | some r =>
           -- what a freshly built object with the current settings would derive its arrays from
           let fresh := derive s'.srfModel s'.seed s'.modeNo s'.epoch
-          out := out.push (Json.mkObj [("out", outJson r), ("fresh", derivedJson fresh)])
+          out := out.push (Json.mkObj [("out", outJson r), ("fresh", derivedJson fresh),
+            ("recipe", recipeJson (recipe (preGen s o))), ("stored_pos", optJ s'.pos)])
         | none => pure ()
         s := s'
       return Json.arr out)
